@@ -156,7 +156,7 @@ def r1(report, db, cg, S, type_ci, packet_ci):
                     'loop spins forever' % (lp.node.lineno, show(e.fn)[:60],
                                             why))
     report.note('stream-reading loops', n_loops)
-    report.floor('stream-reading loops', n_loops, 2)
+    report.floor('stream-reading loops', n_loops, 1)
 
 
 def r2(report, db, cg, S, M, type_ci, packet_ci):
